@@ -14,16 +14,19 @@ def unhx(h):
 class Cfg:
     """Options + environment of one compilation (see harness/README.md)."""
     def __init__(s, optimize=True, lm=False, lint=False, path="", deffont="", maxlen=0,
-                 switches=None, autovars=None, fontdefault="", fonts=None):
+                 switches=None, autovars=None, fontdefault="", fonts=None, nofc=False):
         s.optimize = optimize; s.lm = lm; s.lint = lint; s.path = path; s.deffont = deffont
         s.maxlen = maxlen; s.switches = dict(switches or {}); s.autovars = dict(autovars or {})
         s.fontdefault = fontdefault; s.fonts = fonts or {}
+        s.nofc = nofc      # the font config file is missing: the model sees an empty font table
+        if nofc: s.fontdefault = ""; s.fonts = {}
     def text(s):
         out = ["opt %d" % s.optimize, "lm %d" % s.lm, "lint %d" % s.lint, "path " + hx(s.path),
                "deffont " + hx(s.deffont), "maxlen %d" % s.maxlen]
         for k, v in s.switches.items(): out.append("sw %s %s" % (hx(k), hx(v)))
         for k, (vn, pos) in s.autovars.items():
             out.append("autovar %s %s %s" % (hx(k), hx(vn), "-" if pos is None else str(pos)))
+        if s.nofc: out.append("nofc 1")
         out.append("fontdefault " + hx(s.fontdefault))
         for fid, f in s.fonts.items():
             out.append("font %s %d %d %d" % (hx(fid), f.get("maxLineLength", 0), f.get("numLines", 0), f.get("cursorOverlapWidth", 0)))
@@ -31,7 +34,7 @@ class Cfg:
         return "\n".join(out)
     def hex(s): return hx(s.text())
     def copy(s, **kw):
-        c = Cfg(s.optimize, s.lm, s.lint, s.path, s.deffont, s.maxlen, s.switches, s.autovars, s.fontdefault, s.fonts)
+        c = Cfg(s.optimize, s.lm, s.lint, s.path, s.deffont, s.maxlen, s.switches, s.autovars, s.fontdefault, s.fonts, s.nofc)
         for k, v in kw.items(): setattr(c, k, v)
         return c
 
